@@ -50,6 +50,14 @@ STEPS_QUICK = [None] + [s for s in range(-4, 5) if s != 0]
 STEPS_THOROUGH = [None] + [s for s in range(-16, 17) if s != 0]
 
 
+def tight_bounds(c, top, bot, width):
+    if c > 0:
+        last = bot + (width - 1) * c
+        return z3.And(last < top, top <= last + c)
+    last = top - 1 + (width - 1) * c
+    return z3.And(bot <= last, last + c + 1 <= bot)
+
+
 class SliceInnerContract(Contract):
     """_slice_inner(slize): the result denotes exactly what Python selects from a list of `width` items.
 
@@ -155,7 +163,15 @@ class SliceInnerContract(Contract):
             rng = z3.And(rng, top - bot == width)
         return rng
 
-    posts = property(lambda self: [("sel", self.p_sel), ("width", self.p_width), ("inrange", self.p_inrange)])
+    def p_tight(self, eng, st0, st, a, res):
+        """the bounds are tight enough that walking from the first position by `step` stays inside [bot, top) for exactly
+        `width` positions: range(bot, top, step) / range(top-1, bot-1, step) enumerate the selection"""
+        sp = self.spec(st0, a)
+        top, bot, step, width = self._res(st, res)
+        return tight_bounds(sp["step"], top, bot, width)
+
+    posts = property(lambda self: [("sel", self.p_sel), ("width", self.p_width), ("inrange", self.p_inrange),
+                                   ("tight-bounds", self.p_tight)])
 
     # an index selecting nothing (or out of range int) must be rejected
     must_raise = property(lambda self: [("selects-nothing", lambda eng, st0, a: z3.Not(self.spec(st0, a)["ok"]))])
